@@ -27,7 +27,7 @@ SHAPE_PARAMS = {
     "Trapezoid": [[0.0, 0.25, 0.5, 1.0], [-INF, 0.0, 0.5, 1.0], [0.0, 0.5, 1.0, INF]],
     "Triangle": [[0.0, 0.5, 1.0], [-INF, 0.25, 0.75], [0.0, 0.0, 1.0]], "ZShape": [[0.0, 1.0], [0.25, 0.5]],
 }
-HEIGHTS = [1.0, 0.5, 0.96, 0.9995]
+HEIGHTS = [1.0, 0.5, 0.96, 0.9995, 2.0]
 WEIGHTS = [None, "0.500", "0.9996", "0.960", "0.12346"]
 
 
@@ -126,7 +126,14 @@ def singles(base: dict, numbers=None):
             r["outputs"][0]["min"], r["outputs"][0]["max"] = lo, hi
         out.append(("range", f"out0.range=({lo},{hi})", orng))
     # --- descriptions, names, weights ----------------------------------------------------------------------------------
-    for text in ("some text", "with: a colon and, punctuation", "x"):
+    def empty_block(r):
+        r["blocks"].append({"name": "placeholder", "description": "no rules yet", "enabled": False, "conjunction": "Minimum",
+                            "disjunction": None, "implication": "AlgebraicProduct", "activation": ["Highest", 2], "rules": []})
+    out.append(("block", "blocks+=empty block", empty_block))
+    def no_rules(r):
+        r["blocks"][-1]["rules"] = []
+    out.append(("block", "last block without rules", no_rules))
+    for text in ("some text", "with: a colon and, punctuation", "x", "form\x0cfeed, vertical\x0btab, line\u2028separator"):
         out.append(("description", f"engine.description={text!r}", _set(("description",), text)))
         out.append(("description", f"in0.description={text!r}", _set(("inputs", 0, "description"), text)))
         out.append(("description", f"out0.description={text!r}", _set(("outputs", 0, "description"), text)))
